@@ -928,6 +928,12 @@ class Interp:
                     parts.append(x)
                 elif isinstance(x, int) and not isinstance(x, bool) and not spec:
                     parts.append(str(x))
+                elif (isinstance(x, int) and not isinstance(x, bool) and v.conversion in (-1, None) and v.format_spec is not None
+                      and all(isinstance(c, ast.Constant) for c in v.format_spec.values)):
+                    try:
+                        parts.append(format(x, "".join(str(c.value) for c in v.format_spec.values)))
+                    except ValueError:
+                        raise PyRaise("ValueError", n, "invalid format specifier")
                 else:
                     symbolic = True
                     parts.append(f"{{{x!r}{spec}}}")
